@@ -199,7 +199,7 @@ func (g *FnGen) processBlock(b *ssa.BasicBlock) {
 	preds := g.forwardPreds(b)
 	var guard string
 	if b == g.fn.Blocks[0] {
-		guard = "true"
+		guard = g.entryGuard
 	} else if b == g.fn.Recover {
 		return // recover block: only reached by a recovered panic, which we prove absent or confine
 	} else {
@@ -1013,6 +1013,9 @@ func (g *FnGen) checkAssign(ins ssa.Instruction, p *Place, pos token.Pos) {
 	g.checkSharedKey(ins, p.Key, p.Base, pos)
 	if g.C == nil || !g.C.HasAssign {
 		return
+	}
+	if strings.HasPrefix(p.Key, "C:") || strings.HasPrefix(p.Key, "Glob:") && false {
+		// cells are only reachable through pointers; treated like any other place
 	}
 	// allowed: fresh objects, or a place named by the assigns clause
 	allowed := []string{g.isFresh(p.Base)}
